@@ -567,6 +567,39 @@ pub fn c20_check_one(rep: &mut Report, pats: &[Vec<u8>], cfg: &Cfg, shape: &str)
                 if ac.kind() != w {
                     bad.push(("kind", format!("kind() = {:?}, explicitly requested {:?}", ac.kind(), w)));
                 }
+                // ... and what kind() names is what was built: the searcher's
+                // heap usage against that of the three low-level automata
+                // built by hand with the same options. A verdict only when the
+                // figure is exactly that of a kind that was NOT asked for and
+                // differs from the requested kind's (anything else - e.g. a
+                // wrapper that accounts for itself - is just counted).
+                if pats.iter().map(|p| p.len()).sum::<usize>() <= 20_000 {
+                    let mem = ac.memory_usage();
+                    let low = |imp: Imp| -> Option<usize> {
+                        let c = Cfg { imp, ..*cfg };
+                        match guard(|| c.build(pats)) {
+                            Ok(Ok(S::N(a))) => Some(a.memory_usage()),
+                            Ok(Ok(S::C(a))) => Some(a.memory_usage()),
+                            Ok(Ok(S::D(a))) => Some(a.memory_usage()),
+                            _ => None,
+                        }
+                    };
+                    let by_kind = [
+                        (AhoCorasickKind::NoncontiguousNFA, low(Imp::LowNnfa)),
+                        (AhoCorasickKind::ContiguousNFA, low(Imp::LowCnfa)),
+                        (AhoCorasickKind::DFA, low(Imp::LowDfa)),
+                    ];
+                    let of_wanted = by_kind.iter().find(|(k, _)| *k == w).and_then(|(_, m)| *m);
+                    if of_wanted == Some(mem) {
+                        rep.tally("requested_kind_confirmed_by_heap_usage");
+                    } else if let Some((k, _)) = by_kind.iter().find(|(k, m)| *k != w && *m == Some(mem)) {
+                        bad.push(("kind_built", format!(
+                            "kind() = {:?} as requested, but memory_usage() = {} is exactly that of a hand-built {:?} with the same options (a hand-built {:?}: {:?})",
+                            ac.kind(), mem, k, w, of_wanted)));
+                    } else {
+                        rep.tally("requested_kind_heap_usage_unclassified");
+                    }
+                }
             }
         }
         S::N(a) => {
@@ -807,6 +840,28 @@ pub fn run_c20(ctx: &Ctx, rep: &mut Report) {
         }
     }
     rep.tally_n("collections", n as u64);
+    // Every explicitly requested kind x start kind x match kind, for
+    // collections on both sides of the 100-pattern mark at which the automatic
+    // choice changes (an explicit request must not be subject to it).
+    if ctx.tier != Tier::Tiny {
+        let mut cell = 0;
+        for np in [1usize, 3, 100, 101, 130] {
+            let pats: Vec<Vec<u8>> = (0..np).map(|i| format!("{}x{}", (b'a' + (i % 26) as u8) as char, i).into_bytes()).collect();
+            for imp in [Imp::TopNnfa, Imp::TopCnfa, Imp::TopDfa] {
+                for sk in SK::ALL {
+                    for kind in Kind::ALL {
+                        cell += 1;
+                        if !ctx.mine(cell) {
+                            continue;
+                        }
+                        let cfg = Cfg { imp, kind, sk, ci: cell % 5 == 0, pre: cell % 2 == 0, dense_depth: None, byte_classes: cell % 3 != 0 };
+                        c20_check_one(rep, &pats, &cfg, "explicit kind matrix");
+                        rep.tally("explicit_kind_matrix_cells");
+                    }
+                }
+            }
+        }
+    }
     c20_builder_reuse(ctx, rep);
     c20_packed_match_kind(rep);
     // One collection whose automata are big in *memory*: about 70 000 trie
